@@ -17,6 +17,7 @@
 
 import abc
 import logging
+import threading
 import uuid
 from typing import Dict, List, TYPE_CHECKING
 
@@ -58,6 +59,8 @@ class TracepointConfigService:
         self._last_update = 0
         self._task_handler = None
         self._listeners: List[ConfigUpdateListener] = []
+        # re-entrant: a listener may register or unregister a tracepoint, which delivers an update from within an update
+        self._update_lock = threading.RLock()
 
     def update_no_change(self, ts):
         """
@@ -133,14 +136,17 @@ class TracepointConfigService:
         """
         # the update tasks run on a pool with more than one worker, so they can complete out of order. Whichever task
         # runs last has to install the latest config we know (not the config that was current when it was submitted),
-        # else we end up acting on an old config while reporting the hash of the new one.
-        new_config = self._tracepoint_config
-        listeners_copy = self._listeners.copy()
-        for listeners in listeners_copy:
-            try:
-                listeners.config_change(ts, old_hash, current_hash, old_config, new_config + self._custom)
-            except Exception:
-                logging.exception("Error updating listener %s", listeners)
+        # else we end up acting on an old config while reporting the hash of the new one. Reading the config and handing
+        # it to the listeners is one step: a task that has read the config and is then overtaken by a task for a
+        # newer config would otherwise install the older config last.
+        with self._update_lock:
+            new_config = self._tracepoint_config
+            listeners_copy = self._listeners.copy()
+            for listeners in listeners_copy:
+                try:
+                    listeners.config_change(ts, old_hash, current_hash, old_config, new_config + self._custom)
+                except Exception:
+                    logging.exception("Error updating listener %s", listeners)
 
     def add_listener(self, listener: ConfigUpdateListener):
         """
